@@ -190,7 +190,9 @@ func (g *pgen) generated() (*j5sgen.File, string) {
 			}
 		}
 		if len(files) > 0 {
-			return vh.Pick(h, files), pkg.Name
+			f := vh.Pick(h, files)
+			stripExtras(f)
+			return f, pkg.Name
 		}
 	}
 }
@@ -589,4 +591,95 @@ func (g *pgen) tiny() (*j5sgen.File, string) {
 		f.Elems = append(f.Elems, e)
 	}
 	return f, pkg
+}
+
+
+// stripExtras removes the members of the generator's AST that the walker's abstract syntax (J5V.Compile.SrcFile as
+// Walker/Print.lean reads it) does not carry: written enum option numbers (`option X { number = 5 }`, `Nums`,
+// `StatusNums`) and the entity annotation of hand-written objects (`PSM`). The generator package belongs to the
+// compile cluster and grows; the print stream stays inside the fragment `supported` describes.
+func stripExtras(f *j5sgen.File) {
+	for _, e := range f.Elems {
+		stripElem(e)
+	}
+}
+
+func stripElem(e *j5sgen.Elem) {
+	if e == nil {
+		return
+	}
+	if e.Object != nil {
+		stripObject(e.Object)
+	}
+	if e.Enum != nil {
+		e.Enum.Nums = nil
+	}
+	if e.Service != nil {
+		stripService(e.Service)
+	}
+	if e.Topic != nil {
+		for _, ms := range [][]*j5sgen.TMsg{e.Topic.Msgs, e.Topic.Reqs, e.Topic.Reps} {
+			for _, m := range ms {
+				stripProps(m.Props)
+			}
+		}
+	}
+	if e.Entity != nil {
+		en := e.Entity
+		en.StatusNums = nil
+		for _, k := range en.Keys {
+			stripProp(k.Prop)
+		}
+		stripProps(en.Data)
+		for _, o := range en.Events {
+			stripObject(o)
+		}
+		for _, c := range en.Commands {
+			stripService(c)
+		}
+		for _, sm := range en.Summaries {
+			stripProps(sm.Props)
+		}
+		for _, n := range en.Nested {
+			stripElem(n)
+		}
+	}
+}
+
+func stripObject(o *j5sgen.Object) {
+	o.PSM = nil
+	stripProps(o.Props)
+	for _, n := range o.Nested {
+		stripElem(n)
+	}
+}
+
+func stripService(s *j5sgen.Service) {
+	for _, m := range s.Methods {
+		stripProps(m.Req)
+		stripProps(m.Res)
+	}
+}
+
+func stripProps(ps []*j5sgen.Prop) {
+	for _, p := range ps {
+		stripProp(p)
+	}
+}
+
+func stripProp(p *j5sgen.Prop) {
+	if p != nil {
+		stripField(p.Field)
+	}
+}
+
+func stripField(f *j5sgen.Field) {
+	if f == nil {
+		return
+	}
+	if f.Ref != nil {
+		f.Ref.Nums = nil
+		stripProps(f.Ref.Props)
+	}
+	stripField(f.Items)
 }
